@@ -443,6 +443,14 @@ func expectStep(c contSpec, st histState, s step) stepExpect {
 			if goSyntaxKey(s.Key, mt.Key()) {
 				e.known = append(e.known, m16.KKeyBase0)
 			}
+			if _, isMethod := mt.MethodByName(s.Key); isMethod {
+				e.classes = append(e.classes, "key:method-name")
+				e.hard = true
+				if _, present := full.Field(k); !present && s.Op == "set" {
+					// no entry yet: the name still resolves to the method, and a plain assignment is dropped
+					e.known = append(e.known, m16.KMapMethod)
+				}
+			}
 			switch status {
 			case "invalid":
 				e.asserted, e.unchanged, e.silentOK = true, true, true
@@ -484,7 +492,9 @@ func expectStep(c contSpec, st histState, s step) stepExpect {
 			if k, status := mapKey(s.Key, mt.Key()); status == "ok" {
 				if v, present := full.Field(k); present {
 					e.result = goJD(v)
-				} else if mt.NumMethod() == 0 || s.Key != "Total" {
+				} else if _, isMethod := mt.MethodByName(s.Key); isMethod {
+					e.result = "fn" // no entry of that name: the method of the named map type
+				} else {
 					e.result = "u"
 				}
 			} else if status == "invalid" {
@@ -492,27 +502,52 @@ func expectStep(c contSpec, st histState, s step) stepExpect {
 			}
 		case "call":
 			e.asserted, e.unchanged, e.silentOK = true, true, true
-			if mt.NumMethod() == 0 {
+			m, has := mt.MethodByName(s.Method)
+			if _, shadow := full.Field(s.Method); !has || shadow || len(s.Args) != m.Type.NumIn()-1 {
+				// no such method, an entry of that name (the entry wins: calling a non-function), or wrong arity
 				e.mustLoud, e.silentOK = true, false
+				e.classes = append(e.classes, "method-call-refused")
 				break
 			}
-			if len(s.Args) != 0 {
-				e.mustLoud, e.silentOK = true, false
-				break
+			e.classes = append(e.classes, "method:"+s.Method)
+			argKey := func() (string, bool) {
+				if len(s.Args) == 1 && s.Args[0].K == "str" {
+					return s.Args[0].S, true
+				}
+				return "", false
 			}
-			if _, shadow := full.Field("Total"); shadow {
-				e.asserted = false
-				break
+			switch s.Method {
+			case "Total":
+				sum := new(big.Int)
+				for _, v := range full.Elems {
+					i, _ := new(big.Int).SetString(v.N, 10)
+					sum.Add(sum, i)
+				}
+				if sum.IsInt64() {
+					e.result = goJD(m16.Num(sum.String()))
+				}
+			case "Len":
+				e.result = "n:" + strconv.Itoa(len(full.Keys))
+			case "Get":
+				if k, ok := argKey(); ok {
+					if v, present := full.Field(k); present {
+						e.result = goJD(v)
+					} else {
+						e.result = "s:\"\""
+					}
+				} else {
+					e.asserted = false
+				}
+			case "Del":
+				if k, ok := argKey(); ok {
+					if _, present := full.Field(k); present {
+						e.accept = append(e.accept, full.WithoutField(k))
+						e.unchanged, e.silentOK = false, false
+					}
+				} else {
+					e.asserted = false
+				}
 			}
-			sum := new(big.Int)
-			for _, v := range full.Elems {
-				i, _ := new(big.Int).SetString(v.N, 10)
-				sum.Add(sum, i)
-			}
-			if sum.IsInt64() {
-				e.result = goJD(m16.Num(sum.String()))
-			}
-			e.classes = append(e.classes, "method:Total")
 		case "gomut", "godel":
 			e.asserted = false
 			e.classes = append(e.classes, "go-side-mutation")
@@ -803,9 +838,9 @@ func checkView(c contSpec, o stepObs, expando map[string]string) string {
 				if m := m16.MatchJS(jd, ev, mt.Elem(), nil); m != "" {
 					return fmt.Sprintf("entry %q: %s", name, m)
 				}
-			} else if name == "Total" && mt.NumMethod() > 0 {
+			} else if _, isMethod := mt.MethodByName(name); isMethod {
 				if jd.Atom != "fn" {
-					return "method Total reads " + jd.String()
+					return "method " + name + " (no entry of that name) reads " + jd.String()
 				}
 			} else if jd.Atom != "u" {
 				return fmt.Sprintf("absent key %q reads %s", name, jd.String())
